@@ -110,3 +110,13 @@ package api
 //@ func Address.IsReserved
 //@   trusted
 //@   pure
+
+// ---- package constants set once in init() (assumed, listed in evidence) ----
+
+//@ global RewardAmountDenominator != nil && quantity.Val(RewardAmountDenominator) > 0
+//@ global CommissionRateDenominator != nil && quantity.Val(CommissionRateDenominator) > 0
+
+//@ func CommissionSchedule.CurrentRate
+//@   trusted
+//@   pure
+//@   ensures result == nil || quantity.Val(result) >= 0
